@@ -110,6 +110,51 @@ def p_nested(k, kind):
     return obs
 
 
+def p_nested_op(k, kind):
+    """an operation that is only valid on the data the OUTER condition admits, inside an inner block"""
+    br = k.br
+    _ = br.BranchingValues()
+    x = k.S("x")
+    _.b = 0
+    if br._if(x < 8, ctx=_):
+        if br._if(bitcond(k, "c", "plain" if kind == "plain" else "cmp"), ctx=_):
+            bits = x.to_bits(3)            # would be rejected for x >= 8: must stay guarded by the outer condition too
+            _.b = bits[0] + bits[2] * 2
+        br._endif(ctx=_)
+    br._endif(ctx=_)
+    xv, c = k.v("x"), k.v("c")
+    nat = {"b": ((xv & 1) + ((xv >> 2) & 1) * 2) if (xv < 8 and c) else 0}
+    obs = []
+    compare(obs, _, nat)
+    return obs
+
+
+def p_matrix(k, kind):
+    """a variable holding a list of lists, modified in place inside branches"""
+    br = k.br
+    _ = br.BranchingValues()
+    _.m = [[1, k.S("x")], [3, 4]]
+    _.l = [5, 6]
+    if br._if(bitcond(k, "c", kind), ctx=_):
+        _.m[0][1] = 9
+        _.m[1][0] = _.m[1][0] + 10
+        _.l[1] = 7
+    if br._else(ctx=_):
+        _.m[1][1] = 0
+    br._endif(ctx=_)
+    c, x = k.v("c"), k.v("x")
+    nat = {"m": [[1, 9], [13, 4]] if c else [[1, x], [3, 0]], "l": [5, 7] if c else [5, 6]}
+    obs = []
+    for nm, want in nat.items():
+        got = _.vals[nm]
+        flatg = [val(v) for row in got for v in (row if isinstance(row, list) else [row])]
+        flatw = [v for row in want for v in (row if isinstance(row, list) else [row])]
+        obs.append(("variable %s keeps its shape" % nm, len(flatg) == len(flatw)))
+        for i, (g, w) in enumerate(zip(flatg, flatw)):
+            obs.append(("variable %s element %d ends with the value native control flow gives" % (nm, i), ("eq", g, w)))
+    return obs
+
+
 def p_while(k, kind):
     br = k.br
     _ = br.BranchingValues()
@@ -201,7 +246,7 @@ def p_lazy_div(k, kind):
 
 
 PROGRAMS = {"if_else": (p_if_else, ("c", "x")), "if_only": (p_if_only, ("c", "x", "y")), "elif": (p_elif, ("c", "d", "x")),
-            "nested": (p_nested, ("c", "d", "x")), "while": (p_while, ("n", "b", "x")), "for": (p_for, ("n", "x")), "forcheck": (p_forcheck, ("n",)),
+            "nested": (p_nested, ("c", "d", "x")), "nestedop": (p_nested_op, ("c", "x")), "matrix": (p_matrix, ("c", "x")), "while": (p_while, ("n", "b", "x")), "for": (p_for, ("n", "x")), "forcheck": (p_forcheck, ("n",)),
             "lazy": (p_lazy, ("c", "x", "y")), "lazy_div": (p_lazy_div, ("x", "y"))}
 
 
@@ -219,6 +264,8 @@ def build(n=4, tier="quick"):
                         cs.append((k.v(i) == 0) | (k.v(i) == 1))
                     elif i in ("n", "b"):
                         cs.append((k.v(i) >= 0) & (k.v(i) <= 4))
+                    elif nm == "nestedop":
+                        cs.append((k.v(i) >= 0) & (k.v(i) < 20))
                     else:
                         cs.append((k.v(i) > -50) & (k.v(i) < 50))
                 return cs
